@@ -247,7 +247,8 @@ func VerifC08_Equal(cs int) {
 // the compared child has 2 or 3 children of its own (plain values symbolic over {A,B}, so that equal
 // ones occur) and the right tree is a deep copy with those grandchildren in every other order. The diff
 // is all two-sided, accounts for everything, and computing / printing / sorting it leaves both trees as
-// they were. cs%4: kind of the child, cs/4%2: 2 or 3 grandchildren, cs/8%2: with a DATE grandchild.
+// they were. cs%4: kind of the child, cs/4%2: 2 or 3 grandchildren, cs/8%2: with a DATE grandchild,
+// cs/16%2: two more levels below the second grandchild.
 func VerifC08_Events(cs int) {
 	tags := []Tag{TagEvent, TagBirth, TagResidence, TagFromString("ZZ")}
 	// the data is drawn once: both trees carry the same values
@@ -263,12 +264,20 @@ func VerifC08_Events(cs int) {
 		if cs/8%2 == 1 {
 			grands[0] = NewNode(TagDate, year, "")
 		}
+		if cs/16%2 == 1 {
+			// one level more: the second grandchild has a child (with a child of its own)
+			great := NewNode(TagFromString("MAP"), gv[0], "")
+			great.AddNode(NewNode(TagFromString("LATI"), gv[1], ""))
+			grands[1].AddNode(great)
+		}
 		for _, j := range order {
 			if j < n {
 				c.AddNode(grands[j])
 			}
 		}
 		root.AddNode(c)
+		// a sibling, so that sorting the diff has something to compare the event with
+		root.AddNode(NewNode(TagDate, "1850", ""))
 		return root
 	}
 	n := cs/4%2 + 2
